@@ -574,6 +574,9 @@ func (fx *FX) stdlibWrites(f *ssa.Function, in ssa.CallInstruction, cc *ssa.Call
 		if _, isSl := p.Type().Underlying().(*types.Slice); !isSl {
 			continue
 		}
+		if id == "(*math/big.Int).SetBytes" {
+			continue // SetBytes(buf) reads buf
+		}
 		switch p.Name() {
 		case "dst", "out", "buf":
 			if i+off < len(cc.Args) {
